@@ -274,6 +274,12 @@ pub fn try_cleanup_corrupt_lock_file(data_dir: impl AsRef<Path>) -> Result<bool,
         return Ok(false);
     }
 
+    // Only a lock that is still unreadable is corrupt: another contender may have cleaned it up
+    // and acquired the store since the caller looked.
+    if read_authority_lock_record(&data_dir).is_ok() {
+        return Ok(false);
+    }
+
     let tombstone = lock_path.with_file_name(format!(
         "{}.corrupt-{}-{}",
         lock_path.file_name().unwrap_or_default().to_string_lossy(),
